@@ -410,6 +410,15 @@ func (rd *renderer) stmt(s *Stmt, ind int) {
 	}
 }
 
+func hasMod(mods []string, m string) bool {
+	for _, x := range mods {
+		if x == m {
+			return true
+		}
+	}
+	return false
+}
+
 func relPath(f File) string {
 	pkgDir := strings.ReplaceAll(f.Pkg, ".", "/")
 	name := f.Unit.Name
@@ -576,7 +585,7 @@ func Render(f File, layout int) (string, Facts) {
 				}
 				w.s(" throws " + strings.Join(m.Throws, ", "))
 			}
-			if u.Kind == "interface" {
+			if u.Kind == "interface" && !hasMod(m.Mods, "default") && !hasMod(m.Mods, "static") {
 				w.s(";\n")
 				mf.EndLine = w.line - 1
 			} else {
